@@ -170,3 +170,12 @@ def strip_docstring(body):
     if body and isinstance(body[0], ast.Expr) and isinstance(body[0].value, ast.Constant) and isinstance(body[0].value.value, str):
         return body[1:]
     return body
+
+
+def clone(node):
+    """A private copy of an expression/statement subtree.  Model nodes carry `_parent` links, so copy.deepcopy would drag
+    the whole module along; re-parsing the unparsed text gives a fresh tree of just this node."""
+    text = ast.unparse(node)
+    if isinstance(node, ast.expr):
+        return ast.parse(text, mode="eval").body
+    return ast.parse(text).body[0]
